@@ -58,6 +58,34 @@ def enc_value(ty, v):
     raise ValueError("type %r" % ty)
 
 
+ORDERS = ("asc", "desc", "tlen_first", "name_first", "name_last", "shuffle")
+
+
+def permute(fields, order, rng=None):
+    """the same struct with its fields in another order: the compact protocol allows any order (a non-ascending step is
+    written in the long form: type byte + zig-zag field id), so a reader must give the same result"""
+    f = list(fields)
+    if order in (None, "asc"):
+        return f
+    if order == "desc":
+        return f[::-1]
+    if order == "tlen_first":          # SchemaElement: type_length (2) before type (1); in general: swap the first two fields
+        by = {x[0]: x for x in f}
+        if 1 in by and 2 in by:
+            rest = [x for x in f if x[0] not in (1, 2)]
+            return [by[2], by[1]] + rest
+        return f[1:2] + f[0:1] + f[2:]
+    if order == "name_first":
+        nm = [x for x in f if x[0] == 4]
+        return nm + [x for x in f if x[0] != 4]
+    if order == "name_last":
+        nm = [x for x in f if x[0] == 4]
+        return [x for x in f if x[0] != 4] + nm
+    if order == "shuffle" and rng is not None:
+        rng.shuffle(f)
+    return f
+
+
 def enc_struct(fields):
     out = bytearray()
     last = 0
